@@ -29,6 +29,7 @@ DRIVER = "drv_filter"
 THEOREMS = [
     "C09.reverse_order",
     "C09.reverseOrderOk_iff",
+    "C09.populate_order",
     "C09.involutive_flags_counterexample",
     "C09.involutive_partial",
     "C09.undo_leaf_partial",
@@ -194,6 +195,10 @@ def check_trees(ctx, trees, where):
         m, s = ans[2 * k], ans[2 * k + 1]
         ctx.evaluation()
         inp = {"ops": q[2 * k]["ops"], "where": where}
+        if where == "autogenerate" and m.get("reversible") is not True:
+            # hypothesis of C09.populate_order: every op autogenerate emits is reversible
+            ctx.fail(inp, "populate: autogenerate emitted an upgrade op that cannot be reversed (no stored _reverse / existing_* values)",
+                     impl={"up": inp["ops"]}, tags=["populate"])
         if down is None:
             if m.get("err") != "ValueError":
                 ctx.disagree("rev.tree", inp, {"err": "ValueError"}, m)
